@@ -17,7 +17,7 @@ func init() {
 		Config: c07Config, Run: c07Run, MaxSteps: 400,
 		Rule: "runs = start pattern (A, B or both; trigger kind query / whitespace tag / error restart / Send under require-encryption; fresh, refresh of a running session, or after an earlier session was ended by one or both users) x policy pair sharing a version x PRNG-chosen interleaving of the two FIFO queues with ticks; " +
 			"non-trivial = at least 4 AKE deliveries happened; distinct = distinct (policies, triggers, delivery order) signatures",
-		Assume: []string{"links are reliable FIFO", "a trigger that reaches a party within 60 s of its last AKE state change is ignored by design and carries no liveness obligation (triggers are issued outside that window)"},
+		Assume: []string{"links are reliable FIFO", "a trigger that reaches a party within 60 s of its last AKE state change is ignored by design and carries no liveness obligation (triggers are issued outside that window)", "one start per side (plus several Sends under require-encryption before the first delivery): a further start by the same side while its exchange is under way is not explored (seeded change C07-5 is missed for that reason, DESIGN.md Appendix C wave 4)"},
 	})
 }
 
